@@ -6,10 +6,12 @@ import (
 	"errors"
 	"fmt"
 	"log/slog"
+	"os"
 	"runtime"
 	"sort"
 	"strings"
 	"sync"
+	"time"
 
 	wire "github.com/jeroenrinzema/psql-wire"
 	"github.com/jeroenrinzema/psql-wire/pkg/buffer"
@@ -44,6 +46,19 @@ func hookLock(try func() bool, lock func(), point string) {
 		// blocking in the Go runtime, which would stall the simulation
 		if try() {
 			return
+		}
+		if rt.isFrozen() {
+			// teardown: several goroutines really run at the same time (the
+			// teardown's Close call, Serve returning, released connections), so a
+			// mutex may be busy for a moment; wait on the bubble's clock - a
+			// durable block - and retry before calling it a deadlock
+			for i := 0; i < 200; i++ {
+				bubbleSleep(time.Microsecond)
+				if try() {
+					return
+				}
+			}
+			runtime.Goexit()
 		}
 		rt.lockDead = point
 		<-rt.never
@@ -441,6 +456,7 @@ type Result struct {
 	Conns         []*connState
 	ServeReturned bool
 	// PreClose: outcome of the Close call made before Serve (SchedCase.CloseFirst)
+	DirtyWhy                string // why the run left goroutines behind
 	PreClose                string
 	ServeDoneBeforeTeardown bool
 	ServeErr                string
@@ -556,14 +572,21 @@ func (rt *Runtime) teardown(res *Result) {
 	default:
 		res.CloseBlocked = true
 		res.Dirty = true
+		res.DirtyWhy += "the Close call of the teardown does not return; "
 	}
 	if !rt.serveDone {
 		// Serve did not return although Close was called: leave the bubble.
 		res.Dirty = true
+		res.DirtyWhy += "Serve has not returned after the Close call of the teardown; "
+		if os.Getenv("VERIF_DEBUG_DIRTY") != "" {
+			buf := make([]byte, 1<<20)
+			fmt.Fprintf(os.Stderr, "DIRTY-STACKS\n%s\n", buf[:runtime.Stack(buf, true)])
+		}
 	}
-	for _, c := range rt.Conns {
+	for i, c := range rt.Conns {
 		if c.Started && c.Closed == 0 {
 			res.Dirty = true
+			res.DirtyWhy += fmt.Sprintf("connection %d is still open after the teardown; ", i)
 		}
 	}
 }
